@@ -173,6 +173,7 @@ def run(chk):
                 chk.fail("effective range == range*uts/(uts-mean)", inp, r * uts / (uts - m), g)
             if m > 0 and not g > r:
                 chk.fail("tensile mean stress enlarges the effective range", inp, "> %r" % r, g)
+            chk.count("gh-row")
             if m != 0.0:
                 chk.nontriv((r, m, uts))
         k = 1000.0
